@@ -186,7 +186,9 @@ class Net(object):
     def bind_name(self, i, key, ctx="bind-name"):
         sx, ref = self.sx, self.ref
         s, r = self.socks[i], ref.socks[i]
-        if isinstance(key, str):
+        if isinstance(key, str) and key.startswith("__malformed__:"):
+            name, valid, wka = key[len("__malformed__:"):].encode("latin1"), False, None
+        elif isinstance(key, str):
             name, valid, wka = NAMES[key]
         else:
             name, valid, wka = key, True, None
@@ -390,6 +392,28 @@ class Net(object):
         sx.check(not self.pending(i), what + ":duplicated")
         sx.reach("datagram:delivered")
         return "delivered"
+
+    def resolve_remote(self, name):
+        """the remote device looks the name up at A: an SDREQ arrives, the
+        SDRES that leaves must say 'no such service' (address 0)"""
+        sx = self.sx
+        req = pdu.ServiceNameLookup(1, 1)
+        req.sdreq = [(7, name)]
+        self.A.dispatch(pdu.decode(pdu.encode(req)))
+        ans = None
+        for k in range(4):
+            p = self.A.collect()
+            if p is None:
+                break
+            for q in (p if p.name == "AGF" else [p]):
+                if q.name == "SNL":
+                    for tid, sap in q.sdres:
+                        if tid == 7:
+                            ans = sap
+        if ans is None:
+            sx.check(False, "malformed-name:lookup-not-answered")
+        sx.check(ans == 0, "malformed-name:lookup-finds-a-service")
+        return ans
 
     def resolve(self, key):
         sx, ref = self.sx, self.ref
@@ -750,6 +774,25 @@ def raw_in_named_range(sx, k):
     out.append(n.datagram(sx.int("dsap", 16, 19), [2], "d"))
     n.invariants(k + 1)
     sx.reach("raw-in-named-range-end")
+    return out
+
+
+MALFORMED = [b"urn:nfc:sn:demo service", b"urn:nfc:sn:demo/x", b"urn:nfc:sn:demo\x00", b"urn:nfc:sn:demo?",
+             b"urn:nfc:sn:demo\n", b"urn:nfc:sn:demo\r\n", b" urn:nfc:sn:demo", b"urn:nfc:sn:d\xe9mo",
+             b"urn:nfc:xsn:", b"URN:NFC:SN:demo", b"urn:nfc:sn:demo,x"]
+
+
+def malformed_names(sx, tname):
+    """names that begin like a service name but are not one (illegal octets
+    in the middle or at the end, a line end included): bind() refuses them
+    with EFAULT, they take no address, and the peer's lookup reports absence"""
+    n = Net(sx)
+    name = sx.pick("name", MALFORMED)
+    i = n.socket(tname)
+    r = n.bind_name(i, name if False else "__malformed__:" + name.decode("latin1"))
+    n.invariants(0)
+    out = [r, n.resolve_remote(name)]
+    sx.reach("malformed-names-end")
     return out
 
 
@@ -1251,6 +1294,8 @@ def partitions(tier):
                                       ops="quick")))
     parts.append(dict(name="exhaust-named", fn="exhaust_named",
                       params=dict(k=2 if tier == "quick" else 4)))
+    for t in ("DLC", "LDL"):
+        parts.append(dict(name="malformed-names:" + t, fn="malformed_names", params=dict(tname=t)))
     parts.append(dict(name="raw-in-named-range", fn="raw_in_named_range",
                       params=dict(k=2 if tier == "quick" else 3)))
     for sc in ("via-B", "raw"):
@@ -1282,7 +1327,7 @@ def partitions(tier):
     return parts
 
 
-MUST_REACH = ["raw-in-named-range-end", "send-side:connected", "send-side:refused", "send-side:delivered", "history-end", "EAGAIN", "bind-addr-ok", "bind-addr:EFAULT",
+MUST_REACH = ["malformed-names-end", "raw-in-named-range-end", "send-side:connected", "send-side:refused", "send-side:delivered", "history-end", "EAGAIN", "bind-addr-ok", "bind-addr:EFAULT",
               "bind-addr:EACCES", "bind-addr:EADDRINUSE", "bind-name:EFAULT",
               "bind-name:EADDRINUSE", "bind-name:well-known", "bind-name:ok",
               "bind-name:exhausted", "close:last-socket", "close:not-last-socket",
